@@ -11,7 +11,7 @@ ASSUMPTIONS = ["connected callbacks are not executed (they cannot be known)"]
 NOT_UNDER_CONTRACT = []
 
 
-def bounded(tier, seed):
+def _bounded(tier, seed):
     from pyvc.native_bridge import bounded_paint
     return [bounded_paint(tier, "C20", "exactly one refresh per accepted stroke (carrying the new node when one is created), per undo and per redo; none when refused")]
 
@@ -24,3 +24,8 @@ def units(tier):
 def witness(label, failure, seed):
     from pyvc.native_bridge import tracks_witness
     return tracks_witness("C20", label, failure, seed)
+
+
+def bounded(tier, seed):
+    from ._common import model_checks
+    return _bounded(tier, seed) + model_checks(tier, "networkx", shape=True, seed=seed)
